@@ -201,23 +201,14 @@ def check_renderer(ctx, cname, rules=("DIMGUARD", "DIST", "SHARP", "SMOOTH", "WI
         wn = out.get("width_atom")
         okd, where = False, fi
         if wn:
-            defs = []
-            for s in fv.statements():
-                if isinstance(s, ast.Assign) and any(isinstance(t, ast.Name) and t.id == wn for t in s.targets):
-                    defs.append(s)
+            from ..astutil import value_cases, truth_of
+
             vals = set()
-            for s in defs:
-                g = si.guards(s)
-                pol = None
-                for test, p in g:
-                    cp = compare_parts(test)
-                    if cp and U(cp[0]) == "self.interface_width" and isinstance(cp[2], ast.Constant) and cp[2].value is None:
-                        if isinstance(cp[1], ast.Is):
-                            pol = p
-                        elif isinstance(cp[1], ast.IsNot):
-                            pol = not p
-                vals.add((pol, U(s.value)))
-                where = s
+            at = smooth[0][0] if smooth else (sharp[0][0] if sharp else None)
+            if at is not None:
+                for dec, val in value_cases(fv, at, ast.Name(id=wn, ctx=ast.Load())):
+                    vals.add((truth_of(dec, "self.interface_width is None"), U(val)))
+            where = at if at is not None else fi
             okd = vals == {(True, f"{grid_p}.typical_discretization"), (False, "self.interface_width")}
             ctx.decide(okd, "WIDTH", site + ":default", (fi, where),
                        "unset width (`is None`) defaults to grid.typical_discretization, otherwise the droplet's own width",
